@@ -166,9 +166,12 @@ crate::harnesses! { REG;
     /// quick required | hash_to_field::<2> over F_13: ALL 3-byte messages, ALL 2-byte DSTs
     #[unwind(12)]
     fn c13_h2f_prime_m3() { h2f_prime::<3, 2>() }
-    /// quick required | hash_to_field::<2> over F_13: the empty message with ALL 2-byte DSTs, and ALL 2-byte messages with the empty DST
+    /// quick required | hash_to_field::<2> over F_13: the empty message with ALL 2-byte DSTs
     #[unwind(12)]
-    fn c13_h2f_prime_empty() { h2f_prime::<0, 2>(); h2f_prime::<2, 0>() }
+    fn c13_h2f_prime_empty_msg() { h2f_prime::<0, 2>() }
+    /// quick required | hash_to_field::<2> over F_13: ALL 2-byte messages with the empty DST
+    #[unwind(12)]
+    fn c13_h2f_prime_empty_dst() { h2f_prime::<2, 0>() }
     /// thorough required timeout=2400 | hash_to_field::<2> over F_13 with a 4-byte DST, ALL 2-byte messages
     #[unwind(12)]
     fn c13_h2f_prime_dst4() { h2f_prime::<2, 4>() }
